@@ -11,6 +11,7 @@ require (
 	github.com/sassoftware/relic/v8 v8.0.0
 	gopkg.in/yaml.v3 v3.0.1
 	pgregory.net/rapid v1.3.0
+	software.sslmate.com/src/go-pkcs12 v0.5.0
 )
 
 require (
@@ -111,7 +112,6 @@ require (
 	google.golang.org/grpc v1.67.1 // indirect
 	google.golang.org/protobuf v1.35.1 // indirect
 	howett.net/plist v1.0.1 // indirect
-	software.sslmate.com/src/go-pkcs12 v0.5.0 // indirect
 )
 
 replace github.com/sassoftware/relic/v8 => /repo
